@@ -171,7 +171,7 @@ def finish(ctx: Ctx, module, wall_s: float) -> int:
     """Write the evidence file, print verdict lines, return the exit code."""
     required = getattr(module, "REQUIRED", [])
     for name in required:
-        if ctx.counters.get(name, 0) <= 0:
+        if ctx.counters.get(name, len(ctx.sets.get(name, ()))) <= 0:
             ctx.mark_inconclusive(f"deciding monitor counter '{name}' is zero")
     if ctx.evaluations == 0:
         ctx.mark_inconclusive("no case was evaluated")
@@ -205,7 +205,7 @@ def finish(ctx: Ctx, module, wall_s: float) -> int:
         "verdict": "violated" if ctx.violations else ("inconclusive" if ctx.inconclusive else "held"),
         "tree": str(env.REPO),
     }
-    env.EVIDENCE_DIR.mkdir(exist_ok=True)
+    env.EVIDENCE_DIR.mkdir(parents=True, exist_ok=True)
     out = env.EVIDENCE_DIR / f"{ctx.pid}.json"
     text = json.dumps(jsonable(ev), indent=1)
     try:
